@@ -422,14 +422,17 @@ def check_turns(rng, sess):
     bootstrap.reset_globals()
     world = gen_world(rng, neps=(0, 10))
     tokens = rng.choice([1, 2, 5, 256])
-    loops = rng.choice([0, 1, 1])
-    cfg = {"t3": {"tokens": tokens, "max_rag_loops": loops, "max_ops_per_turn": rng.choice([1, 2, 3, 8])},
+    loops = rng.choice([0, 1, 1, 2, 5])  # > 1 is outside the validator's enumeration: set on the live config after validation
+    cfg = {"t3": {"tokens": tokens, "max_rag_loops": min(loops, 1), "max_ops_per_turn": rng.choice([1, 2, 3, 8])},
            "t2": {"sim_threshold": rng.choice([-1.0, 0.0, 0.3]), "k_retrieval": rng.choice([1, 4, 10])},
            "t4": {"cache": {"enabled": rng.random() < 0.5}}}
     if rng.random() < 0.3:
         cfg["t3"]["dialogue"] = {"template": rng.choice(["{labels} " * 50, "{snippets_text} and {labels}", "a b c d e f g h i j k"]), "include_top_k_snippets": 3}
     labs = [n[1] for g in world["graphs"].values() for n in g["nodes"] if n[1]]
     with TurnEnv(cfg, world) as env:
+        if loops > 1:
+            env.cfg["t3"]["max_rag_loops"] = loops
+            sess.count("real_turn_histories_with_raw_max_rag_loops>1")
         for ti in range(rng.randint(1, 4)):
             calls = []
             real = core._t2_semantic if hasattr(core, "_t2_semantic") else core.t2_semantic
